@@ -324,6 +324,12 @@ func (q *TaskQueue) addAfter(id string, newTask task.Task) {
 		}
 	}
 
+	if !idFound {
+		// no task with such id: leave the queue untouched instead of
+		// growing it with an empty slot
+		return
+	}
+
 	q.items = newItems
 }
 
@@ -356,6 +362,12 @@ func (q *TaskQueue) addBefore(id string, newTask task.Task) {
 			// when id is found, copy other taskы to i+1 position
 			newItems[i+1] = t
 		}
+	}
+
+	if !idFound {
+		// no task with such id: leave the queue untouched instead of
+		// growing it with an empty slot
+		return
 	}
 
 	q.items = newItems
